@@ -103,3 +103,85 @@ Proof.
   induction ops as [|o r IH]; intros g Hi Ho; cbn [fold_left]; [exact Hi|].
   destruct Ho as [H1 H2]. apply IH; [apply nstep_inv; assumption | exact H2].
 Qed.
+
+(* ---- the ammonium pair (NH4Sum, NH4UMS): same recurrence with the same factor ---- *)
+Definition swap_nh4 (g : mineral_glob (T:=R)) : mineral_glob (T:=R) :=
+  {| mg_wred := mg_wred g; mg_porges0 := mg_porges0 g; mg_dsumm := mg_nh4sum g; mg_ums := mg_nh4ums g;
+     mg_nh4sum := mg_dsumm g; mg_nh4ums := mg_ums g; mg_n2onitsum := mg_n2onitsum g;
+     mg_n2onitdaily := mg_n2onitdaily g; mg_minsum := mg_minsum g |}.
+
+Lemma mineral_layer_swap z (l : mineral_layer_in (T:=R)) (g : mineral_glob (T:=R)) :
+  mg_nh4ums (snd (mineral_layer z l g)) = mg_ums (snd (mineral_layer z l (swap_nh4 g))) /\
+  mg_nh4sum (snd (mineral_layer z l g)) = mg_dsumm (snd (mineral_layer z l (swap_nh4 g))).
+Proof.
+  unfold mineral_layer. destruct (gtb (ml_tempbo l) zero); cbn [snd mg_nh4ums mg_nh4sum mg_ums mg_dsumm swap_nh4 mg_wred mg_porges0];
+    split; reflexivity.
+Qed.
+
+Definition nh4_inv (g : mineral_glob (T:=R)) : Prop := 0 <= mg_nh4ums g <= mg_nh4sum g.
+
+Inductive nop4 : Type :=
+| Op4Fert (ndir nh4 : R)                       (* a fertiliser event: mineral part, ammonium part (nitro.go:58-63) *)
+| Op4Mineral (z : nat) (l : mineral_layer_in (T:=R))
+| Op4Reset.                                    (* measurement day (run.go:485-486): DSUMM, UMS := 0; the ammonium pair is left alone *)
+
+Definition set_nh4sum (g : mineral_glob (T:=R)) (v : R) : mineral_glob (T:=R) :=
+  {| mg_wred := mg_wred g; mg_porges0 := mg_porges0 g; mg_dsumm := mg_dsumm g; mg_ums := mg_ums g;
+     mg_nh4sum := v; mg_nh4ums := mg_nh4ums g; mg_n2onitsum := mg_n2onitsum g;
+     mg_n2onitdaily := mg_n2onitdaily g; mg_minsum := mg_minsum g |}.
+
+Definition nstep4 (g : mineral_glob (T:=R)) (o : nop4) : mineral_glob (T:=R) :=
+  match o with
+  | Op4Fert d a => set_nh4sum (nstep g (OpFert d)) (mg_nh4sum g + a)
+  | Op4Mineral z l => nstep g (OpMineral z l)
+  | Op4Reset => nstep g OpReset
+  end.
+
+Definition op4_ok (g : mineral_glob (T:=R)) (o : nop4) : Prop :=
+  match o with
+  | Op4Fert d a => 0 <= d /\ 0 <= a
+  | Op4Mineral z l => op_ok g (OpMineral z l)
+  | Op4Reset => True
+  end.
+
+Lemma nstep4_inv g o : totals_inv g /\ nh4_inv g -> op4_ok g o -> totals_inv (nstep4 g o) /\ nh4_inv (nstep4 g o).
+Proof.
+  intros [Hi Hn] Ho. destruct o as [d a|z l|]; cbn [nstep4 op4_ok] in *.
+  - destruct Ho as [Hd Ha]. split.
+    + pose proof (nstep_inv g (OpFert d) Hi Hd) as H. unfold totals_inv in *. cbn in *. lra.
+    + unfold nh4_inv in *. cbn. lra.
+  - split; [apply nstep_inv; assumption|].
+    unfold nh4_inv. cbn [nstep]. destruct (mineral_layer_swap z l g) as [E1 E2]. rewrite E1, E2.
+    assert (Hs : totals_inv (swap_nh4 g)) by exact Hn.
+    assert (Hos : op_ok (swap_nh4 g) (OpMineral z l)) by exact Ho.
+    exact (nstep_inv (swap_nh4 g) (OpMineral z l) Hs Hos).
+  - split; [apply nstep_inv; [assumption | exact I]|]. unfold nh4_inv in *. cbn. exact Hn.
+Qed.
+
+Lemma nstep4_params g o : mg_wred (nstep4 g o) = mg_wred g /\ mg_porges0 (nstep4 g o) = mg_porges0 g.
+Proof.
+  destruct o as [d a|z l|]; cbn [nstep4].
+  - cbn. split; reflexivity.
+  - apply nstep_params.
+  - apply nstep_params.
+Qed.
+
+Fixpoint ops4_ok (g : mineral_glob (T:=R)) (ops : list nop4) : Prop :=
+  match ops with [] => True | o :: r => op4_ok g o /\ ops4_ok (nstep4 g o) r end.
+
+Lemma run4_inv ops : forall g, totals_inv g /\ nh4_inv g -> ops4_ok g ops ->
+  totals_inv (fold_left nstep4 ops g) /\ nh4_inv (fold_left nstep4 ops g).
+Proof.
+  induction ops as [|o r IH]; intros g Hi Ho; cbn [fold_left]; [exact Hi|].
+  destruct Ho as [H1 H2]. apply IH; [apply nstep4_inv; assumption | exact H2].
+Qed.
+
+(* why the measurement day must reset both members of the ammonium pair or neither: a reset of NH4Sum alone (seeded
+   change C07-18) leaves the nitrified amount above the applied amount *)
+Lemma reset_nh4sum_only_refuted :
+  exists g : mineral_glob (T:=R), totals_inv g /\ nh4_inv g /\ ~ nh4_inv (set_nh4sum g 0).
+Proof.
+  exists {| mg_wred := 2/10; mg_porges0 := 4/10; mg_dsumm := 80; mg_ums := 30; mg_nh4sum := 40; mg_nh4ums := 36;
+            mg_n2onitsum := 0; mg_n2onitdaily := 0; mg_minsum := 0 |}.
+  unfold totals_inv, nh4_inv. cbn. split; [lra|]. split; [lra|]. intros [_ H]. lra.
+Qed.
